@@ -60,6 +60,8 @@ class Ctl:
         self.pre = []  # preconditions added by the harness (for reporting)
         self.deadline = None
         self.aux = 0
+        self.hashed = []
+        self.hashed_sym = False
         self.new_solver()
 
     def new_solver(self):
@@ -70,6 +72,8 @@ class Ctl:
     def reset_run(self):
         self.pos = 0
         self.aux = 0
+        self.hashed = []          # numbers hashed on this path: [(shim object, hash token)]
+        self.hashed_sym = False   # a symbolic number has been hashed on this path
         self.new_solver()
 
     def assume(self, *conds):
@@ -898,9 +902,7 @@ class _RatLike(_Num):
         return v != 0
 
     def __hash__(self):
-        if is_term(self._v):
-            raise Unsupported("hash of symbolic number")
-        return hash(RealFraction(self._v))
+        return _num_hash(self)
 
     def __round__(self, ndigits=None):
         if ndigits is not None:
@@ -1111,6 +1113,37 @@ class FracShim(_RatLike):
 
     def limit_denominator(self, *a):
         raise Unsupported("limit_denominator")
+
+
+def _num_hash(x):
+    """hash() of a stand-in number.  Concrete values hash like the real types.  A symbolic value gets a hash that is consistent
+    with ==: it is compared (solver branches) with every stand-in number hashed earlier on this path and takes that number's
+    hash when equal, otherwise a fresh token.  So dict/set operations keyed by symbolic numbers are decided by the solver.
+    Limit: python ints used as keys next to symbolic stand-ins are not seen here (stated in the evidence as an assumption)."""
+    reg = CTL.hashed
+    symbolic = is_term(x._v)
+    if not symbolic and not CTL.hashed_sym:
+        h = hash(RealFraction(x._v))
+        if len(reg) < 48:
+            reg.append((x, h))
+        else:
+            CTL.hashed_sym = None     # too many concrete keys to compare a later symbolic one against
+        return h
+    if CTL.hashed_sym is None:
+        if symbolic:
+            raise Unsupported("hash of a symbolic number after more than 48 hashed numbers")
+        return hash(RealFraction(x._v))
+    for (y, tok) in reg:
+        if not symbolic and not is_term(y._v):
+            if x._v == y._v:
+                return tok
+            continue
+        if bool(x._cmp("==", y)):
+            return tok
+    tok = hash(RealFraction(x._v)) if not symbolic else -(1 << 40) - len(reg)
+    reg.append((x, tok))
+    CTL.hashed_sym = True
+    return tok
 
 
 numbers.Rational.register(FracShim)
